@@ -263,6 +263,55 @@ class OptDir(str):
         return o
 
 
+def ob_install_build_target():
+    """an executable / static library built by the real constructor (BuildTarget.__init__ decides whether its install directory is a custom one) with install_dir
+    absent | '' (straight into the prefix) | a plain string | a directory option | false, through the real Backend.generate_target_install and
+    mintro.list_install_plan: it is installed unless install_dir is false, into the directory given (the type's default when absent), and the install plan -
+    placeholders resolved - names that same place"""
+    def h():
+        import harness.c01 as C1
+        from mesonbuild.mesonlib import MachineChoice, File
+        if C1.ENV is None: C1.setup()
+        env = C1.ENV
+        prefix = env.get_prefix()
+        exe = choose(2, 'kind (executable | static library)') == 0
+        CH = [None, '', 'custom/d', OptDir('libexec', '{libexecdir}'), False]
+        idir = CH[choose(len(CH), 'install_dir')]
+        kw = {'install': True, 'build_by_default': True, 'native': MachineChoice.HOST}
+        if idir is not None: kw['install_dir'] = [idir]
+        cls = B.Executable if exe else B.StaticLibrary
+        t = cls('prog', 'sub', MachineChoice.HOST, [], None, [File(True, 'sub', 'a.o')], env, {}, B.BuildProject('p', '1', '', MachineChoice.HOST, MachineChoice.HOST), kw)
+        for a in ('import_filename', 'debug_filename'):          # no linker was detected for a target made of one object file: no import library, no debug file
+            if not hasattr(t, a): setattr(t, a, None)
+        be = object.__new__(BK.Backend)
+        be.environment = env
+        be.build = types.SimpleNamespace(get_targets=lambda: {t.get_id(): t})
+        be.get_target_option = lambda tt, k: False
+        be.get_target_filename = lambda tt: 'sub/' + tt.get_filename()
+        be.get_aix_so_archive_name = lambda tt, f: None
+        d = types.SimpleNamespace(headers=[], man=[], data=[], install_subdirs=[], targets=[], symlinks=[], emptydir=[], build_dir='/bld', prefix=prefix)
+        be.generate_target_install(d)
+        if idir is False:
+            check(len(d.targets) == 0, 'install_dir : false installs nothing'); cover('nothing'); return
+        check(len(d.targets) == 1, 'the target is installed once')
+        if len(d.targets) != 1: return
+        default = env.get_bindir() if exe else env.get_static_lib_dir()
+        want = default if idir is None else str(idir)
+        check(d.targets[0].outdir == want, 'it goes to the directory given, the default of its type when none is')
+        plan = MT.list_install_plan(None, None, types.SimpleNamespace(create_install_data=lambda: d))
+        ents = [e for sect, dd in plan.items() for p, e in dd.items()]
+        check(len(ents) == 1, 'listed once in the install plan')
+        if len(ents) != 1: return
+        name = ents[0]['destination']
+        roots = {'{prefix}': prefix, '{bindir}': env.get_bindir(), '{libdir_static}': env.get_static_lib_dir(), '{libexecdir}': 'libexec', '{libdir}': env.get_libdir()}
+        for ph, val in roots.items():
+            if name.startswith(ph): name = val + name[len(ph):]
+        check(MI.get_destdir_path('', prefix, name) == MI.get_destdir_path('', prefix, os.path.join(want, t.get_filename())),
+              'the install-plan destination, placeholders resolved, is where meson install puts the target')
+        cover('installed')
+    return h
+
+
 def ob_install_targets():
     """custom targets with 1-3 outputs and either ONE install_dir or one PER OUTPUT (false = do not install; a plain string; a directory option such as
     get_option('bindir')), through the real Backend.generate_target_install and mintro.list_install_plan: every installed output is listed once, and its
@@ -458,6 +507,7 @@ def obligations(tier):
                           placeholders='{prefix} {includedir} {mandir} {datadir}', strip_directory='both'), labels=('headers', 'man', 'data', 'install_subdirs', 'targets', 'subdir-named'), max_paths=3000000))
     out.append(Obligation('buildoptions', ob_options(), dict(options='project int/bool, system combo, builtin bool; symbolic values'), labels=('done',)))
     out.append(Obligation('install-targets', ob_install_targets(), dict(real='Backend.generate_target_install, CustomTarget.install_dir_names, mintro.list_install_plan', outputs='1-3', install_dir="one for all | one per output; false | plain string | get_option('bindir') | get_option('datadir')"), labels=('installed', 'nothing')))
+    out.append(Obligation('install-build-target', ob_install_build_target(), dict(real='build.Executable / StaticLibrary constructors (from an object file, no compiler), Backend.generate_target_install, mintro.list_install_plan', install_dir="absent | '' | plain string | directory option | false"), labels=('installed', 'nothing')))
     for dim in ('inputs', 'consumers'):
         out.append(Obligation('targets-vs-ninja[%s]' % dim, ob_targets_vs_ninja(dim, tier != 'quick'), dict(real='Interpreter.run + NinjaBackend.generate + mintro.list_targets / list_installed on a generated project without a compiled language',
                               targets='3 custom targets (1-2 outputs) consuming a source file / a whole target / one indexed output / a configure_file output / a generator list; alias / run target; subdirectory; outputs of one target that differ only in case, each with its own install_dir; install_subdir of a name with and without a trailing slash, with and without strip_directory',
